@@ -13,23 +13,31 @@ package main
 import (
 	"fmt"
 	"reflect"
+	"regexp"
 	"runtime"
 	"strconv"
 	"strings"
 	"sync"
+	"sync/atomic"
 
 	"verifharness/drv"
 
 	"github.com/yandex/pandora/core/plugin"
+	"github.com/yandex/pandora/core/plugin/pluginconfig"
 )
 
 func worldOf(kv map[string]string) *world {
 	w := &world{sh: parseShape(kv["sh"]), ids: map[*Conf]int{}, ff: parseSet(kv["ff"]), cf: parseSet(kv["cf"]), rf: parseSet(kv["rf"]),
-		plugT: ifaceT}
+		plugT: ifaceT, bad: kv["bad"] == "1"}
+	w.vmin, _ = strconv.Atoi(kv["vmin"])
 	for i, t := range strings.Split(kv["d"], "/") {
-		w.d[i], _ = strconv.Atoi(t)
+		if i < 3 {
+			w.d[i], _ = strconv.Atoi(t)
+		}
 	}
 	w.u = parseU(kv["u"])
+	w.ext = parseExtDef(kv)
+	w.ux = parseUx(kv)
 	return w
 }
 
@@ -48,8 +56,47 @@ func c18Conc(kv map[string]string) string {
 	return c18ConcRun(kv)
 }
 
+// spinStart: all goroutines of a concurrent case leave the barrier at (nearly) the same instant
+type spinStart struct {
+	ready, go_ atomic.Int32
+}
+
+func (b *spinStart) wait() {
+	b.ready.Add(1)
+	for i := 0; b.go_.Load() == 0; i++ {
+		if i > 2000 {
+			runtime.Gosched() // fewer processors than goroutines
+		}
+	}
+}
+
+func (b *spinStart) release(n int) {
+	for i := 0; int(b.ready.Load()) < n && i < 50_000_000; i++ {
+		if i%1000 == 999 {
+			runtime.Gosched()
+		}
+	}
+	b.go_.Store(1)
+}
+
 func c18ConcRun(kv map[string]string) string {
 	reg := plugin.NewRegistry()
+	// round 4: sub-cases with via=hook run through pluginconfig.Hook / FactoryHook and the REAL config decoder — several
+	// config.Decode calls at the same time, each with its own settings and its own configuration object (what the pools
+	// and instances of an engine do).  The registry is the default registry for the whole case, the validation rule
+	// (one per process) is the one of the first such sub-case; the generator gives all of them the same.
+	subs := strings.Split(kv["cases"], "@@")
+	for _, s := range subs {
+		if skv := drv.KV(strings.ReplaceAll(s, "+", " ")); skv["via"] == "hook" {
+			hookMu.Lock()
+			defer hookMu.Unlock()
+			old := plugin.DefaultRegistry()
+			plugin.SetDefaultRegistry(reg)
+			defer plugin.SetDefaultRegistry(old)
+			defer setRule(atoi(skv["vmin"]))()
+			break
+		}
+	}
 	type job struct {
 		w    *world
 		kv   map[string]string
@@ -57,7 +104,7 @@ func c18ConcRun(kv map[string]string) string {
 		ok   bool
 	}
 	var jobs []job
-	for i, s := range strings.Split(kv["cases"], "@@") {
+	for i, s := range subs {
 		skv := drv.KV(strings.ReplaceAll(s, "+", " "))
 		j := job{w: worldOf(skv), kv: skv, name: "n" + strconv.Itoa(i)}
 		j.w.yield = true
@@ -73,7 +120,8 @@ func c18ConcRun(kv map[string]string) string {
 		jobs = append(jobs, j)
 	}
 	outs := make([]string, len(jobs))
-	start := make(chan struct{})
+	var start spinStart
+	running := 0
 	var wg sync.WaitGroup
 	for i, j := range jobs {
 		if !j.ok {
@@ -81,6 +129,7 @@ func c18ConcRun(kv map[string]string) string {
 			continue
 		}
 		wg.Add(1)
+		running++
 		go func(i int, j job) {
 			defer wg.Done()
 			defer func() {
@@ -88,15 +137,28 @@ func c18ConcRun(kv map[string]string) string {
 					outs[i] = "PANIC " + drv.Clean(fmt.Sprint(r))
 				}
 			}()
-			<-start
+			start.wait()
 			var fillOpt []func(interface{}) error
 			if j.kv["fill"] == "1" {
 				fillOpt = append(fillOpt, j.w.fillWith(j.w.u))
 			}
 			k, _ := strconv.Atoi(j.kv["k"])
-			j.w.drive(j.kv["form"], k,
-				func() (interface{}, error) { return reg.New(ifaceT, j.name, fillOpt...) },
-				func(t reflect.Type) (interface{}, error) { return reg.NewFactory(t, j.name, fillOpt...) })
+			if j.kv["via"] == "hook" {
+				data := func() interface{} {
+					m := map[string]interface{}{"type": j.name}
+					j.w.userKeysOf(j.w.u, m)
+					return m
+				}
+				j.w.drive(j.kv["form"], k,
+					func() (interface{}, error) { return pluginconfig.Hook(reflect.TypeOf(data()), ifaceT, data()) },
+					func(t reflect.Type) (interface{}, error) {
+						return pluginconfig.FactoryHook(reflect.TypeOf(data()), t, data())
+					})
+			} else {
+				j.w.drive(j.kv["form"], k,
+					func() (interface{}, error) { return reg.New(ifaceT, j.name, fillOpt...) },
+					func(t reflect.Type) (interface{}, error) { return reg.NewFactory(t, j.name, fillOpt...) })
+			}
 			var views []string
 			for _, p := range j.w.products {
 				if p.cfg != nil {
@@ -106,7 +168,7 @@ func c18ConcRun(kv map[string]string) string {
 			outs[i] = "steps=" + strings.Join(j.w.steps, ";") + " views=" + strings.Join(views, ",")
 		}(i, j)
 	}
-	close(start)
+	start.release(running)
 	wg.Wait()
 	return "conc " + strings.Join(outs, " ## ")
 }
@@ -129,6 +191,28 @@ func concGen(r interface{ Intn(int) int }, plain []string, n int) []string {
 		var cs []string
 		for j := 0; j < g; j++ {
 			cs = append(cs, strings.ReplaceAll(plain[r.Intn(len(plain))], " ", "+"))
+		}
+		out = append(out, "conc=1 cases="+strings.Join(cs, "@@"))
+	}
+	return out
+}
+
+var concVminPat = regexp.MustCompile(`vmin=[0-9]+`)
+
+// concHookGen (round 4): n cases of 3..8 creations THROUGH THE HOOKS side by side (one rule for the case: the rule is a
+// property of the config type), each sub-case with its own registration, settings and structured options
+func concHookGen(r interface{ Intn(int) int }, hooked []string, n int) []string {
+	var out []string
+	if len(hooked) == 0 {
+		return nil
+	}
+	for i := 0; i < n; i++ {
+		g := 3 + r.Intn(6)
+		vmin := "vmin=" + strconv.Itoa([]int{0, 0, 0, 1, 30}[r.Intn(5)])
+		var cs []string
+		for j := 0; j < g; j++ {
+			c := concVminPat.ReplaceAllString(hooked[r.Intn(len(hooked))], vmin)
+			cs = append(cs, strings.ReplaceAll(c, " ", "+"))
 		}
 		out = append(out, "conc=1 cases="+strings.Join(cs, "@@"))
 	}
